@@ -1,4 +1,5 @@
 import Mfi.Model.Risk
+import Mfi.Model.Integr
 import Mfi.Driver.Basic
 namespace Mfi.Driver
 open Mfi Mfi.Risk
@@ -103,6 +104,32 @@ end Mfi.Driver
 
 namespace Mfi.Driver
 open Mfi Mfi.Risk
+
+/-- the venue-backed oracle arms, value side: Kamino / Solend re-scale by total liquidity / total collateral (both
+    truncated by 10^decimals first), Drift by its cumulative deposit interest; a Pyth price (exponent 0) comes out as the
+    adjusted integer, a Switchboard value as the I80F48 price of the adjusted 18-decimals value -/
+def venueOp (op : String) (a : List Int) : Option String :=
+  let swbOut (o : Option Int) : String :=
+    match o with
+    | none => "none"
+    | some v => (match swbPrice v with | .ok p => s!"ok {p}" | .error _ => "none")
+  let reserveRatio (l c d : Int) : Option (Option Int) :=
+    (Mfi.Integr.scaleSupplies l c d).map fun (ls, cs) => Mfi.Integr.usedRatio ls cs
+  match op, a with
+  | "ig.kpyth", [l, c, d, p] | "ig.spyth", [l, c, d, p] =>
+    some (match reserveRatio l c d with
+      | none => "none"
+      | some none => s!"some {p}"
+      | some (some r) => (match Mfi.Integr.adjustI64 p r with | some v => s!"some {v}" | none => "none"))
+  | "ig.kswb", [l, c, d, p] | "ig.sswb", [l, c, d, p] =>
+    some (match reserveRatio l c d with
+      | none => "none"
+      | some none => swbOut (some p)
+      | some (some r) => swbOut (Mfi.Integr.adjustI128 p r))
+  | "ig.dpyth", [cum, _d, p] =>
+    some (match Mfi.Integr.driftAdjustI64 cum p with | some v => s!"some {v}" | none => "none")
+  | "ig.dswb", [cum, _d, p] => some (swbOut (Mfi.Integr.driftAdjustI128 cum p))
+  | _, _ => none
 
 def liqOp (op : String) (a : List Int) : Option String :=
   match op, a with
